@@ -438,6 +438,8 @@ type Contract struct {
 	Sampler  bool // result is a random draw, recorded as ghost sample(k) in the caller
 	Trusted  bool // contract assumed, body not verified
 	MayPanic bool // callers cannot rely on absence of panic
+	NonBlockingSends bool // every plain channel send of the body must find room in the buffer
+	AsyncInvokes     bool // the callbacks named by `invokes` run on other goroutines after the call returns
 	DeadPoints int // number of blocks/returns that are legitimately unreachable
 	NoBody   bool // library function: nothing to verify
 	Loops    map[string]*LoopSpec
@@ -480,7 +482,7 @@ func newContractSet() *ContractSet {
 
 var clauseKeywords = map[string]bool{
 	"func": true, "props": true, "requires": true, "ensures": true, "modifies": true, "assume-ensures": true,
-	"pure": true, "trusted": true, "maypanic": true, "deadpoints": true, "sampler": true, "loop": true, "site": true, "let": true,
+	"pure": true, "trusted": true, "maypanic": true, "nonblocking-sends": true, "async-invokes": true, "deadpoints": true, "sampler": true, "loop": true, "site": true, "let": true,
 	"invokes": true, "define": true, "global": true, "ghost": true, "unfold": true, "spectype": true, "skip": true, "note": true, "package": true, "thorough": true,
 }
 
@@ -690,6 +692,12 @@ func (cs *ContractSet) parseContractFile(path, pkgPath string, goFile bool) erro
 				cur.Invokes = append(cur.Invokes, strings.Fields(rest)...)
 			case "maypanic":
 				cur.MayPanic = true
+			case "nonblocking-sends":
+				// every plain send (outside a select) must find room in the channel's
+				// buffer: sent - received < capacity is an obligation at the send
+				cur.NonBlockingSends = true
+			case "async-invokes":
+				cur.AsyncInvokes = true
 			case "deadpoints":
 				n, err := strconv.Atoi(strings.Fields(rest)[0])
 				if err != nil {
